@@ -352,8 +352,16 @@ func (c *ClientConn) maybePrepareAndExecute(request Request, raw *frame.RawFrame
 		}
 		id := hex.EncodeToString(msg.Id)
 		if prepare, ok := c.preparedCache.Load(id); ok {
+			// The statement may have been prepared through a session with another protocol version: encode it for
+			// this connection (this also gives the request a frame of its own).
+			var prepareFrm *frame.RawFrame
+			prepareFrm, err = c.reencodePrepare(prepare.PreparedFrame, raw.Header.Version)
+			if err != nil {
+				c.logger.Error("failed to encode cached prepare request for this connection", zap.String("id", id), zap.Error(err))
+				return false
+			}
 			err = c.Send(&prepareRequest{
-				prepare:     copyRawFrame(prepare.PreparedFrame), // The sender rewrites the header (stream id, length)
+				prepare:     prepareFrm,
 				origRequest: request,
 			})
 			if err != nil {
@@ -393,11 +401,26 @@ func (c *ClientConn) maybeCachePrepared(request Request, raw *frame.RawFrame) {
 				zap.Stringer("response", msg))
 			return
 		}
-		c.preparedCache.Store(hex.EncodeToString(msg.PreparedQueryId),
-			&PreparedEntry{
-				copyRawFrame(request.Frame().(*frame.RawFrame)), // Store frame so we can re-prepare
-			})
+		// The cache is shared by all sessions. Keep the statement as a plain frame, without the compression and the
+		// per-request flags (tracing, custom payload) of the connection it happened to be prepared on.
+		prepareFrm := request.Frame().(*frame.RawFrame)
+		plainFrm, err := c.reencodePrepare(prepareFrm, prepareFrm.Header.Version)
+		if err != nil {
+			c.logger.Error("failed to decode prepare request; unable to update prepared cache", zap.Error(err))
+			return
+		}
+		c.preparedCache.Store(hex.EncodeToString(msg.PreparedQueryId), &PreparedEntry{plainFrm}) // Store frame so we can re-prepare
 	}
+}
+
+// reencodePrepare decodes a `PREPARE` request frame and encodes its message again as a new, uncompressed frame of the
+// given protocol version that carries none of the original request's flags.
+func (c *ClientConn) reencodePrepare(raw *frame.RawFrame, version primitive.ProtocolVersion) (*frame.RawFrame, error) {
+	frm, err := c.rawCodec().ConvertFromRawFrame(raw)
+	if err != nil {
+		return nil, err
+	}
+	return c.rawCodec().ConvertToRawFrame(frame.NewFrame(version, raw.Header.StreamId, frm.Body.Message))
 }
 
 func (c *ClientConn) Closing(err error) {
